@@ -173,28 +173,3 @@ Proof.
   eexists. rewrite nth_bank_put_utok. split; [eapply put_hbank_get; eauto|]. split; reflexivity.
 Qed.
 
-(* deposit, withdraw, borrow, repay, close_balance and accrue never touch the insurance vault, the
-   fee vault or the global fee ATA of any bank *)
-Lemma user_ops_leave_fee_destinations w o w' :
-  hstep w o = Ok w' ->
-  match o with
-  | HCollectFees _ | HLiquidate _ _ _ _ _ | HBankruptcy _ _ => True
-  | _ => side_vaults w' = side_vaults w
-  end.
-Proof.
-  destruct o; cbn [hstep]; try (intros; exact I); intros H.
-  - apply Ok_inj in H. subst w'. reflexivity.
-  - (* deposit *)
-    unfold h_deposit in H. inv_binds H.
-    destruct (x6 =? 0).
-    + apply Ok_inj in H. subst w'. eapply sv_put_hbank; eauto.
-    + inv_binds H. destruct x7 as [i la1]. inv_binds H. destruct x9 as [bk2 bl2]. inv_binds H.
-      apply Ok_inj in H. subst w'.
-      rewrite sv_put_hacct.
-      apply xfer_in_sv in Hx10 as S1.
-      rewrite sv_put_hacct in S1.
-      erewrite sv_put_hbank in S1 by (try eassumption; reflexivity).
-      pose proof Hx10 as Hb2.
-      eapply xfer_in_bank in Hb2 as (hb2 & E2 & _ & E3); [|rewrite nth_bank_put_hacct; eapply put_hbank_get; eassumption].
-      rewrite E2 in Hx11. apply Ok_inj in Hx11. subst x11.
-      erewrite sv_put_hbank; [exact S1 | exact E2 | reflexivity].
